@@ -577,6 +577,8 @@ impl Database {
                     Some('n') => result.push('\n'),
                     Some('r') => result.push('\r'),
                     Some('t') => result.push('\t'),
+                    Some('b') => result.push('\u{8}'),
+                    Some('f') => result.push('\u{c}'),
                     Some('\\') => result.push('\\'),
                     Some('"') => result.push('"'),
                     Some('/') => result.push('/'),
